@@ -135,6 +135,8 @@ func init() {
 		var key, detail string
 
 		switch c["op"] {
+		case "history":
+			return histReplay(c)
 		case "hash":
 			msg := unhb(c["msg"])
 			if c["nilmsg"] == "true" {
